@@ -46,6 +46,12 @@ STRUCTS = {
     # pattern axis along a cube body diagonal with an exactly antiparallel copy
     'S20': ('o1', [dict(motif='collinear3', pose='antidiag111', at=(4.0, 5.0, 5.0)), dict(motif='collinear3', pose='diag111', at=(7.0, 2.0, 8.0))], 'collinear3'),
     'S21': ('t3', [dict(motif='planar3', pose='antidiag1-11', at=(3.0, 4.0, 3.0)), dict(motif='planar3', pose='p3', at=(6.0, 6.0, 5.0))], 'planar3'),
+    # strongly tilted cell, copies whose long axis is roughly perpendicular to the a-c face (they stick out of the face by more than
+    # (height/|b|) * pattern length when they straddle it)
+    'S30': ('t5', [dict(motif='collinear3', pose='rz90', at=(6.0, 1.0, 3.0)), dict(motif='collinear3', pose='p1', at=(12.0, 4.0, 6.0)),
+                   dict(motif='collinear3', pose='rz-90', at=(9.0, 3.5, 1.0))], 'collinear3'),
+    'S31': ('t5', [dict(motif='chiral4', pose='rz90', at=(5.0, 1.5, 2.0)), dict(motif='chiral4', pose='p4', at=(11.0, 3.0, 6.5), kind='mirror'),
+                   dict(motif='chiral4', pose='p2', at=(13.0, 4.5, 4.0))], 'chiral4'),
     # orthogonal cell whose vectors are not axis-aligned
     'S22': ('orot', [dict(motif='chiral4', pose='p1', at=(1.0, 6.0, 4.0)), dict(motif='chiral4', pose='p4', at=(-3.0, 9.0, 9.0)),
                      dict(motif='chiral4', pose='p2', at=(-1.0, 3.0, 7.0), kind='mirror')], 'chiral4'),
@@ -194,6 +200,9 @@ def std_instances(tier, seed, families=('face',)):
         add(f"find:S27:axis{ax}:two-occurrences-sharing-atoms", struct='S27', axes=[ax], other=(0.15, 0.8, 0.45), cost=10)
         add(f"find:S27b:axis{ax}:two-occurrences-sharing-atoms:scan-order-against-index-order", struct='S27b', axes=[ax], other=(0.15, 0.8, 0.45), cost=10)
         add(f"find:S27c:axis{ax}:two-occurrences-sharing-atoms", struct='S27c', axes=[ax], other=(0.65, 0.1, 0.45), cost=10)
+    for sname in ('S30', 'S31'):
+        add(f"find:{sname}:axis1:strongly-tilted-cell", struct=sname, axes=[1], other=(0.15, 0, 0.4), cost=40)
+    add("find:S30:axis0:strongly-tilted-cell", struct='S30', axes=[0], other=(0, 0.55, 0.8), cost=40)
     # histories: an earlier search must not influence a later one (same object edited in place / another structure with the same coordinates)
     add("find:S1:axis0:history:moved-in-place", struct='S1', axes=[0], other=(0, 0.3, 0.6), history='moved-in-place', cost=40)
     add("find:S2:axis2:history:moved-in-place", struct='S2', axes=[2], other=(0.2, 0.3, 0), history='moved-in-place', cost=40)
